@@ -338,10 +338,15 @@ def run(ctx):
     r6.check(ok, ctx.construct(fn), 'RunTask commands are not built from '
              '_find_task_specs_with_satisfied_dependencies()', ctx.loc(fn))
     fs = prog.func(RWC + '._find_task_specs_with_satisfied_dependencies')
-    txt = ' '.join(ast.unparse(fs.node).split())
-    r6.check('if self._is_satisfied_task(t_s)' in txt and
-             '_get_target_task_specification()' in txt and
-             'graph.reverse()' in txt, ctx.construct(fs),
+    comps = [x for x in own_nodes(fs.node) if isinstance(x, ast.ListComp)]
+    okf = False
+    for lc in comps:
+        g0 = lc.generators[0]
+        okf = okf or (
+            any(U.phas(i, 'self._is_satisfied_task(__t)') for i in g0.ifs)
+            and U.phas(g0.iter, '___.dfs_postorder_nodes(__g.reverse(), '
+                       'self._get_target_task_specification())'))
+    r6.check(okf, ctx.construct(fs),
              'candidates are not the dependency closure of the target '
              'filtered by _is_satisfied_task', ctx.loc(fs))
     st = prog.func(RWC + '._is_satisfied_task')
@@ -357,9 +362,20 @@ def run(ctx):
              ctx.construct(st, extra='existing => not satisfied'),
              'a task that already has an execution can be emitted again',
              ctx.loc(st))
-    txt = ' '.join(ast.unparse(st.node).split())
-    r6.check('t_ex.state == states.SUCCESS' in txt and
-             'get_task_requires(task_spec)) - success_t_names' in txt,
+    succ_sets = set()
+    for x in own_nodes(st.node):
+        if isinstance(x, ast.Call) and U.call_name(x) == 'add' and \
+                isinstance(x.func.value, ast.Name):
+            cn = cfg.node_of(x)
+            g = [norm(t) for (t, pol, _g) in cfg.guards(cn)
+                 if isinstance(t, ast.expr) and pol]
+            if any(U.phas(ast.parse(t), '__e.state == states.SUCCESS')
+                   for t in g):
+                succ_sets.add(x.func.value.id)
+    okr = any(isinstance(x, ast.Return) and any(
+        U.phas(x.value, 'not (set(self.wf_spec.get_task_requires(__s)) - '
+               + v + ')') for v in succ_sets) for x in own_nodes(st.node))
+    r6.check(bool(succ_sets) and okr,
              ctx.construct(st, extra='requires all SUCCESS'),
              'requires are not compared against SUCCESS tasks only',
              ctx.loc(st))
